@@ -541,6 +541,15 @@ KERNEL_GROUPS = {
         ('int_pattern_builder.py', 'IntPatternBuilder.build', 'k_pattern_build', 'pt'),
         ('uint_range.py', 'UIntRange.from_length', 'k_range_from_length', 'range'),
     ],
+    'KernelsTargeton': [
+        ('uint_range.py', 'UIntRange.get_before', 'k_range_get_before', 'range'),
+        ('uint_range.py', 'UIntRange.get_after', 'k_range_get_after', 'range'),
+        ('loaders/targeton_config.py', 'TargetonConfig.__post_init__', 'k_targeton_post_init', 'tcfg'),
+        ('loaders/targeton_config.py', 'TargetonConfig.get_region_1', 'k_targeton_region_1', 'tcfg'),
+        ('loaders/targeton_config.py', 'TargetonConfig.get_region_3', 'k_targeton_region_3', 'tcfg'),
+        ('loaders/targeton_config.py', 'TargetonConfig.get_const_1', 'k_targeton_const_1', 'tcfg'),
+        ('loaders/targeton_config.py', 'TargetonConfig.get_const_2', 'k_targeton_const_2', 'tcfg'),
+    ],
     'KernelsAnnot': [
         ('annot_variant.py', 'get_codon_range_offset', 'k_codon_range_offset', None),
     ],
@@ -554,7 +563,7 @@ def _kernel_extractor(name):
         sources = {m: _src(m) for m in sorted({t[0] for t in targets})}
         body = pytrans.translate(sources, targets)
         pre = '(* IntPatternBuilder(offset, span) *)\nRecord pt := mkPt { pt_offset : Z; pt_span : Z }.\n\n' if name == 'KernelsPattern' else ''
-        return ('(* translated from the source by harness/pytrans.py *)\nFrom VV Require Import Model.Base Model.Pattern Model.Transcript.\n'
+        return ('(* translated from the source by harness/pytrans.py *)\nFrom VV Require Import Model.Base Model.Pattern Model.Transcript' + (' Model.Targeton' if name == 'KernelsTargeton' else '') + '.\n'
                 'Definition fact_extracted : bool := true.\n' + pre + body)
     f.__doc__ = 'Pure arithmetic kernels translated from the source by harness/pytrans.py (fail closed).'
     return f
